@@ -19,12 +19,12 @@ VARIABLE l
 
 Fn(seq) == [p \in Paths |-> seq[Pos(p)]]
 SetOf(seq) == {seq[i] : i \in 1..Len(seq)}
-OutFn(o) == [nm \in OutNames |-> o[nm]]
+OutFn(o) == [q \in OutPaths |-> o[CHOOSE i \in 1..Len(OutOrder) : OutOrder[i] = q]]
 ObsState(o, xp) ==
   [disk |-> Fn(o.disk), out |-> OutFn(o.out), tree |-> Fn(o.tree), fs |-> Fn(o.fs),
    sparse |-> SetOf(o.sparse), xp |-> xp, stats |-> o.stats, err |-> o.err]
 
-IsEdit(a) == a \in {"Write", "Chmod", "Symlink", "Delete", "Mkfifo", "FileToDir", "RmTree", "DirToFile"}
+IsEdit(a) == a \in {"Write", "Chmod", "Symlink", "Delete", "Mkfifo", "FileToDir", "RmTree", "DirToFile", "DirToSymlink"}
 EditEnabled(s, e) ==
   CASE e.a = "Write" -> CanWrite(s, e.p, e.c)
     [] e.a = "Chmod" -> CanChmod(s, e.p)
@@ -32,6 +32,7 @@ EditEnabled(s, e) ==
     [] e.a = "Delete" -> CanDelete(s, e.p)
     [] e.a = "Mkfifo" -> CanMkfifo(s, e.p)
     [] e.a = "FileToDir" -> CanFileToDir(s, e.p)
+    [] e.a = "DirToSymlink" -> CanDirToSymlink(s, e.p, e.t)
     [] e.a = "RmTree" -> CanRmTree(s, e.p)
     [] e.a = "DirToFile" -> CanDirToFile(s, e.p, e.c)
 EditDo(s, e) ==
@@ -41,6 +42,7 @@ EditDo(s, e) ==
     [] e.a = "Delete" -> DoDelete(s, e.p)
     [] e.a = "Mkfifo" -> DoMkfifo(s, e.p)
     [] e.a = "FileToDir" -> DoFileToDir(s, e.p)
+    [] e.a = "DirToSymlink" -> DoDirToSymlink(s, e.p, e.t)
     [] e.a = "RmTree" -> DoRmTree(s, e.p)
     [] e.a = "DirToFile" -> DoDirToFile(s, e.p, e.c)
 
